@@ -390,6 +390,17 @@ fn interpret(c: &mut Commands, ctx: &mut Ctx, act: &SAct)
             let Some(e) = resolve(*r) else { return };
             if *ty == 0 { c.react().insert(e, Comp::<0>(*v)); } else { c.react().insert(e, Comp::<1>(*v)); }
         }
+        SAct::MutNr(r, ty, v) =>
+        {
+            let Some(e) = resolve(*r) else { return };
+            let Ctx::Full(acc) = ctx else { log("unsupported-in-exclusive".into()); return };
+            if *ty == 0 { if let Ok(x) = acc.0.get_noreact(e) { x.0 = *v; } } else { if let Ok(x) = acc.1.get_noreact(e) { x.0 = *v; } }
+        }
+        SAct::ResNr(ty, v) =>
+        {
+            let Ctx::Full(acc) = ctx else { log("unsupported-in-exclusive".into()); return };
+            if *ty == 0 { acc.2.get_noreact().0 = *v; } else { acc.3.get_noreact().0 = *v; }
+        }
         SAct::Mutate(r, ty, v) =>
         {
             let Some(e) = resolve(*r) else { return };
